@@ -161,6 +161,24 @@ pub fn build_graph(gs: &GraphSpec) -> Result<(G, Built), BuildPanic> {
                 scratch.clone_from(&g);
                 scratch
             }
+            4 => {
+                // same functions, same user edges, but the declarations of the last two
+                // functions exchanged: same shape (ranks, often also edge counts), other
+                // data edges
+                let mut twin = gs.clone();
+                twin.provenance = 0;
+                let n = twin.fns.len();
+                if n >= 2 {
+                    twin.fns.swap(n - 1, n - 2);
+                }
+                match build_plain(&twin) {
+                    Some(mut scratch) => {
+                        scratch.clone_from(&g);
+                        scratch
+                    }
+                    None => g,
+                }
+            }
             _ => g,
         };
         built.preds = vec![Vec::new(); built.n];
@@ -182,6 +200,33 @@ pub fn build_graph(gs: &GraphSpec) -> Result<(G, Built), BuildPanic> {
         (g, built)
     }));
     r.map_err(|p| BuildPanic(panic_msg(&p)))
+}
+
+/// The graph of a spec, straight from the builder (single calls only).
+fn build_plain(gs: &GraphSpec) -> Option<G> {
+    let mut b = FnGraphBuilder::<SimFn>::new();
+    let ids: Vec<_> = gs
+        .fns
+        .iter()
+        .enumerate()
+        .map(|(i, f)| {
+            b.add_fn(SimFn {
+                id: i,
+                reads: f.reads,
+                writes: f.writes,
+                style: f.style,
+                own: f.own,
+                visits: 0,
+            })
+        })
+        .collect();
+    for c in &gs.calls {
+        let _ = match c.kind {
+            EdgeKind::Logic => b.add_logic_edge(ids[c.from], ids[c.to]),
+            EdgeKind::Contains => b.add_contains_edge(ids[c.from], ids[c.to]),
+        };
+    }
+    Some(b.build())
 }
 
 /// A different graph of (almost) the same size: reads and writes swapped, every other
